@@ -99,6 +99,18 @@ func (g *vfGen) genC04() {
 			pool = append(pool, c)
 		}
 	}
+	// texts whose charset cannot be determined (no parameter at all) between documents that carry one: an optional
+	// parameter is part of the answer, and a parameter of an earlier answer must not show up in a later one
+	noCs := [][]byte{[]byte("plain \x80 text"), []byte("caf\xe9 \x80\x81 ok\n"), []byte("a,b\n1,\x80\n3,4\n"), []byte("<html><body>\x80\x81</body>"),
+		[]byte("<?xml version=\"1.0\"?><a>\x80</a>"), []byte("\x80"), []byte("#!/bin/sh\necho \x80\x90\n"), []byte("{\"a\":\"\x80\"}")}
+	withCs := [][]byte{[]byte("plain text"), []byte("<html><meta charset=latin1>"), []byte("<?xml version=\"1.0\" encoding=\"koi8-r\"?><a/>"),
+		[]byte("\xef\xbb\xbfbom"), []byte("\xff\xfea\x00"), []byte("caf\xc3\xa9"), []byte("a,b\n1,2\n3,4\n"), []byte("caf\xe9 latin")}
+	pool = append(pool, noCs...)
+	for _, nc := range noCs {
+		for _, wc := range withCs {
+			g.emit(fmt.Sprintf("dhist 0 %s,%s,%s,%s,%s", vfHex(nc), vfHex(wc), vfHex(nc), vfHex(wc), vfHex(nc)))
+		}
+	}
 	for i := 0; i < g.pick(300, 10000); i++ {
 		k := 4 + g.intn(16)
 		var items []string
